@@ -6,11 +6,12 @@ use std::{
 
 pub fn file_char_stream(path: &Path) -> Result<impl Iterator<Item = char>, std::io::Error> {
     let f = BufReader::new(File::open(path)?);
-    Ok(f.lines().flat_map(|line| {
-        line.unwrap()
-            .chars()
-            .chain(std::iter::once('\n'))
-            .collect::<Vec<_>>()
-            .into_iter()
-    }))
+    // read eagerly so that an unreadable or non-UTF-8 file is an error of this call
+    // instead of a panic in the middle of lexing
+    let mut chars = Vec::new();
+    for line in f.lines() {
+        chars.extend(line?.chars());
+        chars.push('\n');
+    }
+    Ok(chars.into_iter())
 }
